@@ -413,11 +413,12 @@ async def drive(runs: list[tuple[int, list[list]]], rng: random.Random, attach: 
             except Exception as ex:
                 ops.append(('X', type(ex).__name__, ''))
             per_hook.append(ops[mark:])
-            for op in ops[mark:]:
-                if op[0] == 'P' and op[1].startswith('prompt_info_'):
-                    live_keys.add(op[1])
-                elif op[0] == 'E':
-                    live_keys.discard(op[1])
+            # a trace's prompt stream is live from the start of the trace to its end (from the event stream, not from what the registrars
+            # happened to publish: a subscriber may attach before the trace's first prompt)
+            if e[0] == 'st':
+                live_keys.add(f'prompt_info_{e[1]}')
+            elif e[0] == 'et':
+                live_keys.discard(f'prompt_info_{e[1]}')
             if attach and rng.random() < 0.25:
                 kind = rng.choice(['ids', 'info', 'notice', 'for'])
                 t = None
